@@ -59,3 +59,14 @@ check("C17",
       "link axis; radial clamp axes pinned; arccos/cos/sin as uninterpreted functions with inverse/Pythagorean axioms",
       "symbolic execution of the real Python code with z3 (symx), concrete replay",
       "DESIGN.md 4/C17")
+check("C08",
+      "Bounded symbolic execution of AngleEdge/OriginEdge/ArcEdge.third_point and .length (arc_from_theta, arc_from_origin, "
+      "arc_mid/divide_arc, arc_length_3point) and Spline/PolyLine/Project edge lengths via the real edge factory, for "
+      "end points placed on a circle by construction: symbolic centre, symbolic radius (x,y in-plane), pinned sector "
+      "angles incl. reflex and negative ones, two axes (one non-unit). z3 shows third point == rotation by half the angle, "
+      "length == radius*angle (three-point arcs: the arc through the given point), length >= chord.",
+      "sector angles from the pinned set (rational half-angle cos/sin); arccos of concrete arguments evaluated numerically; "
+      "chord bound of point-list edges uses ground triangle-inequality instances as lemmas; flatness != 1 outside",
+      "symbolic execution of the real Python code with z3 (symx) with canonical-form reduction (exact polynomial division, "
+      "perfect squares), concrete replay",
+      "DESIGN.md 4/C08")
